@@ -535,15 +535,12 @@ impl DrawState {
         let shift = match self.alignment {
             // If we align to the bottom and the new height is less than before, clear the lines
             // that are not used by the new content.
-            MultiProgressAlignment::Bottom if full_height < *bar_count => {
-                let shift = *bar_count - full_height;
-                for _ in 0..shift.as_usize() {
-                    term.write_line("")?;
-                }
-                shift
-            }
+            MultiProgressAlignment::Bottom if full_height < *bar_count => *bar_count - full_height,
             _ => VisualLines::default(),
         };
+        // The blank lines go directly above the bar lines (below any text lines, which stay on
+        // the screen for good), because they are counted as lines the next draw clears.
+        let mut blank_lines = shift.as_usize();
 
         // Accumulate the displayed height in here. This differs from `full_height` in that it will
         // accurately reflect the number of lines that have been displayed on the terminal, if the
@@ -569,6 +566,12 @@ impl DrawState {
                 term.write_line("")?;
             }
 
+            if matches!(line, LineType::Bar(_)) {
+                for _ in 0..std::mem::take(&mut blank_lines) {
+                    term.write_line("")?;
+                }
+            }
+
             term.write_str(line.as_ref())?;
 
             if idx + 1 == self.lines.len() {
@@ -585,6 +588,10 @@ impl DrawState {
                     term.write_line("")?;
                 }
             }
+        }
+
+        for _ in 0..blank_lines {
+            term.write_line("")?;
         }
 
         term.flush()?;
